@@ -122,6 +122,16 @@ def main(argv):
         mod.run(ctx)
     except Exception:  # harness crash = broken correspondence, reported as such
         crashed = traceback.format_exc()
+    if tier == "thorough" and not crashed and ctx.vm_checked == 0 and ctx.model.sample:
+        # every property: a sample of the calls answered by the extracted model is re-evaluated inside Coq
+        sm = ctx.model.sample[:150]
+        try:
+            bad, msg = core.vm_crosscheck([c for c, _ in sm], [o for _, o in sm], prop)
+            ctx.vm_checked = len(sm)
+            if bad != 0:
+                ctx.disagree({"calls": [c[0] for c, _ in sm][:5]}, {"vm_compute_vs_extraction": bad, "msg": msg})
+        except Exception:  # noqa: BLE001
+            crashed = traceback.format_exc()
     if chk_thread is not None:
         chk_thread.join()
         extra = [a for a in pr.coqchk["axioms"] if a not in core.ALLOWED_AXIOMS]
